@@ -403,13 +403,9 @@ Qed.
 
 (* ---- at IBAN level: with national validation requested, accepted = ISO 13616-valid and the published rule holds ------ *)
 Definition the_national := validate_national the_table the_algos (bank_code_entries the_banks).
-Lemma C06_steps_obl :
-  nat_last (ic_steps the_iban_cfg) = true
-  /\ existsb (fun st => match st with SNational => true | _ => false end) (ic_steps the_iban_cfg) = true.
-Proof. vm_cast_no_check (conj (eq_refl true) (eq_refl true)). Qed.
+Definition C06_steps_obl := steps_nat_obl.
 
-Lemma C06_pos_obl : forallb Spec.RegistrySpec.positions_wf the_table = true.
-Proof. vm_cast_no_check (eq_refl true). Qed.
+Definition C06_pos_obl := positions_obl.
 
 Theorem C06_iban_accept : forall txt,
   (exists s, iban_new the_env the_iban_cfg the_table the_national txt false true = Ok s) <->
